@@ -1,3 +1,4 @@
+import sys
 """C14 -- preprocessing order rules and auto-sorting."""
 import itertools
 import re
